@@ -140,6 +140,64 @@ class Harness:
         self.stubs_used = []
         self.ignore_exclusions = False
         self._patches = []
+        pass
+
+    # ---- facts about every row of a symbolic-length array ---------------------------------------
+    def assume_rows(self, P, lo, hi):
+        """for all rows lo <= i < hi: P(i) -- a precondition, or a fact already proved for every row"""
+        if not self.symbolic:
+            return
+        z = lambda v: v.z if isinstance(v, SymInt) else (z3.IntVal(v) if isinstance(v, int) else v)
+        self.ctx.add_row_axiom(lambda t: to_z3_bool(P(SymInt(t))), z(lo), z(hi))
+
+    def row_term(self, t):
+        """register a row index term: the quantifier-free twin of the path solver instantiates every row axiom at it"""
+        if self.symbolic:
+            self.ctx.register_row_term(t.z if isinstance(t, SymInt) else (z3.IntVal(t) if isinstance(t, int) else t))
+        return t
+
+    def _prove_scoped(self, hyps, goal, timeout_ms, facts=None):
+        """unsat / sat / unknown for  path & hyps => goal : quantifier-free twin first (fast, and complete for the instances at hand),
+        then the quantified path solver -- a 'sat' of the twin alone proves nothing and is never reported"""
+        c = self.ctx
+        t0 = time.time()
+        out = "unknown"
+        if facts is not None:
+            # smallest query first: a fresh solver that sees only the hypotheses and the listed path facts (each of which is checked to
+            # hold on the path), nothing else of the path
+            ok = []
+            for f in facts:
+                fz = to_z3_bool(f)
+                if any(fz.eq(a) for a in c.pc) or self._established(fz):
+                    ok.append(fz)
+            m = z3.Solver()
+            m.set("timeout", timeout_ms)
+            for f in list(hyps) + ok:
+                m.add(f)
+            m.add(z3.Not(goal))
+            r = m.check()
+            c.queries += 1
+            if r == z3.unsat:
+                c.solver_s += time.time() - t0
+                return "unsat", time.time() - t0
+        solvers = ([c.qf] if c.has_quant else []) + [c.solver]
+        for s in solvers:
+            s.push()
+            for f in hyps:
+                s.add(f)
+            s.add(z3.Not(goal))
+            s.set("timeout", timeout_ms)
+            r = s.check()
+            c.queries += 1
+            s.pop()
+            s.set("timeout", 3000)
+            if r == z3.unsat:
+                out = "unsat"
+                break
+            if s is c.solver:
+                out = "sat" if r == z3.sat else "unknown"
+        c.solver_s += time.time() - t0
+        return out, time.time() - t0
 
     # ---- inputs ---------------------------------------------------------------------
     @property
@@ -248,9 +306,38 @@ class Harness:
             if not ok:
                 self.failed_concrete.append(name)
 
-    def induct(self, name, P, n, base=0):
-        """Induction over a symbolic row index: proves P(base) and, for a fresh k with base < k < n, P(k-1) => P(k); when both are
-        discharged, 'for all base <= k < n: P(k)' is added to the path as a lemma (symbolic mode only)."""
+    def _established(self, fz):
+        c = self.ctx
+        for s in ([c.qf] if c.has_quant else []) + [c.solver]:
+            s.push()
+            s.add(z3.Not(fz))
+            s.set("timeout", 3000)
+            r = s.check()
+            s.pop()
+            if r == z3.unsat:
+                return True
+        return False
+
+    def lemma_rows(self, name, P, n, base=0, using=(), facts=None):
+        """Row lemma: proves P(k) for a FRESH index k with base <= k < n (hence for every row), records it as a row axiom and returns it
+        for use in `induct(using=...)`; returns None when the proof does not go through (the clause is then recorded as not discharged)."""
+        if not self.symbolic:
+            return None
+        c = self.ctx
+        nz = n.z if isinstance(n, SymInt) else z3.IntVal(int(n))
+        k = z3.Int(c.fresh_name("lem"))
+        goal = to_z3_bool(P(SymInt(k)))
+        hyps = [z3.And(k >= base, k < nz)] + c.row_instances([k, k - 1]) + [to_z3_bool(lem[0](SymInt(k))) for lem in using if lem is not None]
+        r, dt = self._prove_scoped(hyps, goal, c.timeout_ms, facts)
+        self.results.append((name, "discharged" if r == "unsat" else r, None, f"{dt:.3f}s"))
+        if r == "unsat":
+            self.assume_rows(P, base, nz)
+            return (P, base)
+        return None
+
+    def induct(self, name, P, n, base=0, using=(), facts=None):
+        """Induction over a symbolic row index: proves P(base) and, for a fresh k with base < k < n, P(k-1) => P(k) (row lemmas in `using`
+        instantiated at k); when both are discharged, 'for all base <= k < n: P(k)' becomes a row axiom of the path."""
         if not self.symbolic:
             return
         c = self.ctx
@@ -258,22 +345,11 @@ class Harness:
         before = len(self.results)
         self._check_sym(name + ".base", sym.Implies(SymBool(nz > base), P(SymInt(z3.IntVal(base)))), None)
         k = z3.Int(c.fresh_name("ind"))
-        s = c.solver
-        s.push()
-        s.add(z3.And(k > base, k < nz))
-        s.add(to_z3_bool(P(SymInt(k - 1))))
-        s.set("timeout", c.timeout_ms)
-        s.add(z3.Not(to_z3_bool(P(SymInt(k)))))
-        t0 = time.time()
-        r = s.check()
-        c.queries += 1
-        c.solver_s += time.time() - t0
-        s.pop()
-        s.set("timeout", 3000)
-        self.results.append((name + ".step", "discharged" if r == z3.unsat else ("sat" if r == z3.sat else "unknown"), None, f"{time.time() - t0:.3f}s"))
+        hyps = [z3.And(k > base, k < nz), to_z3_bool(P(SymInt(k - 1)))] + c.row_instances([k, k - 1]) + [to_z3_bool(lem[0](SymInt(k))) for lem in using if lem is not None]
+        r, dt = self._prove_scoped(hyps, to_z3_bool(P(SymInt(k))), c.timeout_ms, facts)
+        self.results.append((name + ".step", "discharged" if r == "unsat" else r, None, f"{dt:.3f}s"))
         if all(x[1] == "discharged" for x in self.results[before:]):
-            q = z3.Int(c.fresh_name("q"))
-            c.add_axiom(z3.ForAll([q], z3.Implies(z3.And(q >= base, q < nz), to_z3_bool(P(SymInt(q))))))
+            self.assume_rows(P, base, nz)
 
     def must_not_prove(self, name, cond):
         """Vacuity canary: `cond` is NOT a consequence of the code's behaviour, so a solver that proves it on this path is working from
@@ -283,7 +359,7 @@ class Harness:
         c = self.ctx
         s = c.solver
         s.push()
-        s.set("timeout", min(c.timeout_ms, 5000))
+        s.set("timeout", min(c.timeout_ms, 2000))
         s.add(z3.Not(to_z3_bool(cond)))
         t0 = time.time()
         r = s.check()
@@ -305,7 +381,7 @@ class Harness:
         c = self.ctx
         known = getattr(self, "_derived", None)
         if known is None:
-            known = self._derived = set()
+            known = self._derived = {}      # ast id -> ast (holding the ast keeps its id from being reused)
         for k, f in enumerate(from_):
             fz = to_z3_bool(f)
             if fz.get_id() in known or z3.is_true(z3.simplify(fz)):
@@ -339,11 +415,11 @@ class Harness:
         if r == z3.unsat:
             # the derived fact is remembered for later derivations but NOT pushed into the path solver
             self.results.append((name, "discharged", None, f"{time.time() - t0:.3f}s" if how == "z3" else "cvc5/alt"))
-            known.add(g.get_id())
+            known[g.get_id()] = g
         else:
             self._check_sym(name, goal, None)
             if self.results and self.results[-1][0] == name and self.results[-1][1] == "discharged":
-                known.add(g.get_id())
+                known[g.get_id()] = g
 
     def _check_opaque(self, name, cond, opaque):
         c = self.ctx
@@ -378,6 +454,20 @@ class Harness:
             goal = z3.BoolVal(False)
         else:
             goal = to_z3_bool(cond)
+        if c.has_quant:
+            q = c.qf
+            q.push()
+            q.set("timeout", c.timeout_ms)
+            q.add(z3.Not(goal))
+            t0 = time.time()
+            rq = q.check()
+            c.queries += 1
+            c.solver_s += time.time() - t0
+            q.pop()
+            if rq == z3.unsat:
+                self.results.append((name, "discharged", None, f"{time.time() - t0:.3f}s"))
+                c.assume(goal)
+                return
         s = c.solver
         s.push()
         s.set("timeout", c.timeout_ms)
